@@ -16,11 +16,23 @@ Checked per case
   Cases whose oracle used a `from-code` clause and that disagree are counted out_of_scope
   (never a witness), except crashes.
 
-Witness keys are computed by predicates over the failing run: exception type + innermost
-yamlpath frame (crash); slug of the MergeException text (unexpected error); the oracle's clash
-cell (missing error); for wrong results the shape class at the first differing Hash-key path
-(left class <- right class), and the minimal set of non-default policies / overrides that is
-needed to keep the case failing (found by re-running the case with each option reset).
+Witness keys are computed by predicates over the failing run:
+  C05/crash/<Exc>(<normalised detail>)@<file>:<function>       innermost yamlpath frame
+  C05/merge-error-where-result-defined/<head of the MergeException text>/<needed options>
+  C05/no-merge-error/<oracle's clash cell>/<needed options>
+  C05/key-order/<clause>
+  C05/wrong-result/<left class><-<right class>[@root]/<needed options>
+        shape classes of the node pair at the deepest Hash path where real and expected still differ
+  C05/aoh-policy-applied-to-non-aoh-value/<right class>[/no-merge-error]
+        the failure needs a non-default --aoh although the right-hand value at the failing node is no AoH
+  C05/rule-or-key-takes-effect-at-a-path-it-does-not-name/<right class>
+        the failure needs a [rules]/[keys] entry, yet sits at a node that entry does not name
+  .../true-equals-1/...   the case passes once every `true` is replaced by a string (Python's True == 1)
+<needed options> = the non-default policies / overrides that cannot be reset without losing the failure
+(each option is reset in turn and the case re-run), after both documents were cut down to the failing Hash path.
+Classification results are cached per (status, shape, options) so only the first case of a kind pays for it.
+
+Tiers: quick / thorough as in `bounds`; "smoke" is a one-CPU-minute subset used to mutation-test the harness.
 """
 import pickle
 import time
@@ -296,9 +308,13 @@ def judge(case, real=None, lt=None, rt=None, merge=None, cfg=None):
         oks = [o for o in all_out if o[0] == "ok"]
         res["expected"] = oks[0] if oks else first
     elif all(o[0] == "error" for o in all_out):
+        # the error no reading can avoid: error-removing liberty taken, error-adding ones not
         res["status"] = "no-error"
-        res["expected"] = all_out[-1]        # the reading that uses the most liberties
-        res["site"] = all_out[-1][2]
+        outs = outcomes if outcomes is not None else [(frozenset(), first, tr)]
+        adding = {"empty_seq_into_nonseq_error", "aoh_deep_nonhash_error"}
+        hardest = max(outs, key=lambda o: ("clash_short_circuit" in o[0], -len(o[0] & adding), -len(o[0])))
+        res["expected"] = hardest[1]
+        res["site"] = hardest[1][2]
     else:
         # the admitted document that agrees with the real one down to the deepest Hash path
         res["status"] = "wrong-result"
